@@ -14,6 +14,12 @@ pub struct ShapeScn {
     pub inst: usize,
     pub seed: u64,
     pub calls: usize,
+    /// member of the generator family the shared generator is (0 = Xoroshiro128**)
+    #[serde(default)]
+    pub gen_kind: usize,
+    /// ordinal (over the whole run) of the member update that fails; the caller catches it and calls the set again
+    #[serde(default)]
+    pub panic_at: Option<usize>,
 }
 
 pub fn generate(prop: &str, seed: u64, run_hint: u64) -> ShapeScn {
@@ -23,7 +29,18 @@ pub fn generate(prop: &str, seed: u64, run_hint: u64) -> ShapeScn {
     // cycle through the catalogue so that every shape and instantiation is visited, seeds and call counts are random
     let k = run_hint % (n_env + 3 * n_mkt);
     let (market, shape, inst) = if k < n_env { (false, k as usize, 0) } else { (true, ((k - n_env) / 3) as usize, ((k - n_env) % 3) as usize) };
-    ShapeScn { property: prop.to_string(), market, shape, inst, seed: r.next(), calls: r.range(1, 4) as usize }
+    let seed2 = r.next();
+    let mut calls = r.range(1, 4) as usize;
+    let gen_kind = if r.chance(0.5) { r.usize(crate::rng::GEN_NAMES.len()) } else { 0 };
+    let leaves = if market { crate::shapes_gen::catalogue_mkt().get(shape).map(|e| e.expect.len()) } else { crate::shapes_gen::catalogue_env().get(shape).map(|e| e.expect.len()) }.unwrap_or(1).max(1);
+    let panic_at = if r.chance(0.3) {
+        // the failing member is never in the last call: the call after it shows whether every member is updated again
+        calls = calls.max(2);
+        Some(r.usize(leaves * (calls - 1)))
+    } else {
+        None
+    };
+    ShapeScn { property: prop.to_string(), market, shape, inst, seed: seed2, calls, gen_kind, panic_at }
 }
 
 pub fn execute(s: &ShapeScn) -> RunOutcome {
@@ -36,23 +53,41 @@ pub fn execute(s: &ShapeScn) -> RunOutcome {
             return RunOutcome { violation: None, stats };
         }
     };
+    plan_set(s.gen_kind, s.panic_at);
+    crate::rng::trace_start();
     let derived = match guard(|| (e.run[s.inst.min(2)])(true, s.seed, s.calls)) {
         Ok(l) => l,
         Err(m) => return RunOutcome { violation: Some(mk("panic", 0, "derived update", "no abort".into(), m)), stats },
     };
+    let trace_derived = crate::rng::trace_take();
+    plan_set(s.gen_kind, s.panic_at);
+    crate::rng::trace_start();
     let manual = match guard(|| (e.run[s.inst.min(2)])(false, s.seed, s.calls)) {
         Ok(l) => l,
         Err(m) => return RunOutcome { violation: Some(mk("panic", 0, "hand-written sequence", "no abort".into(), m)), stats },
     };
-    // the sequence implied by the declaration order, with the draws of one continuous generator stream and
-    // one shared environment (one more order per call)
-    let mut rng = SeamRng::passthrough(s.seed);
+    let trace_manual = crate::rng::trace_take();
+    plan_set(0, None);
+    // the sequence implied by the declaration order, with the draws of one continuous generator stream (each member
+    // update through the RngCore method its ordinal prescribes) and one shared environment (one more order per update);
+    // a failing member ends its call of the set, the next call starts with the first member again
+    let mut rng = SeamRng::passthrough_kind(s.seed, s.gen_kind);
     let mut expected: Vec<Rec> = vec![];
+    let mut ordinal = 0usize;
     for _ in 0..s.calls {
         for (tag, ty) in e.expect {
-            let draw = rng.next_u64();
+            let k = ordinal;
+            ordinal += 1;
+            if s.panic_at == Some(k) {
+                stats.fault("member_failed_mid_update");
+                break;
+            }
+            let draw = draw_with(&mut rng, draw_mode(*tag, k));
             expected.push(Rec { tag: *tag, ty: *ty, draw, orders: expected.len() });
         }
+    }
+    if s.gen_kind != 0 {
+        stats.probe("generator_other_family_member");
     }
     let mut viol = None;
     let cmp = |what: &str, got: &[Rec]| -> Option<Violation> {
@@ -77,7 +112,14 @@ pub fn execute(s: &ShapeScn) -> RunOutcome {
         viol = Some(v);
     } else if derived != manual {
         viol = Some(mk("agentset-order", 0, e.name, "derived == hand-written".into(), "differ".into()));
+    } else if trace_derived != trace_manual {
+        let i = trace_derived.iter().zip(trace_manual.iter()).position(|(a, b)| a != b).unwrap_or(trace_derived.len().min(trace_manual.len()));
+        viol = Some(
+            mk("agentset-generator", i, &format!("{}.generator call[{}]", e.name, i), format!("{:?}", trace_manual.get(i)), format!("{:?}", trace_derived.get(i)))
+                .detail("(RngCore method: 64 = next_u64, 32 = next_u32, 0 = fill_bytes; value): the members of the derived set reach the shared generator through other calls than the hand-written sequence does - they are not handed the same generator".into()),
+        );
     }
+    stats.probe_n("generator_calls_compared", trace_manual.len() as u64);
     stats.ops = expected.len() as u64;
     stats.probe_n("member_updates_compared", expected.len() as u64);
     if e.nested {
